@@ -518,7 +518,9 @@ func cmdCheck(args []string) {
 		for _, f := range pc.RingFuncs {
 			var obs []ringObl
 			var err error
-			if eng.contracts[f+"#exp"] != nil {
+			if eng.contracts[f+"#gexp"] != nil {
+				obs, err = eng.VerifyGexp(f)
+			} else if eng.contracts[f+"#exp"] != nil {
 				obs, err = eng.VerifyExp(f)
 			} else {
 				obs, err = eng.VerifyRing(f)
